@@ -360,6 +360,9 @@ def replay(ctx, path):
     print("key:", rp["key"])
     print("what:", rp["what"])
     print("history:", json.dumps(w.get("history"))[:3000])
+    if "/float-edge/" in rp["key"] and "experiment" in w:
+        from .. import c13x
+        return c13x.replay(ctx, df, w)
     if "replay" not in w:
         print("(witness without a replayable state: trace / witness-run finding)")
         return 1
